@@ -28,6 +28,7 @@ class C12(Prop):
         "NV.C12.countCond_spec",
         "NV.C12.pollBlocks_spec",
         "NV.C12.growBy_pos",
+        "NV.C12.firstUserSlot_spec",
         "NV.C12.backendOrder_spec",
         "NV.C12.errorReentry_spec",
         "NV.C12.gucOrder_spec",
@@ -248,6 +249,33 @@ class C12(Prop):
         if len(m6) != 1 or not re.search(r"while \(max_users < new_max_users\)\s*all_users\[max_users\+\+\] = 0;", comm):
             raise X.TieBroken("guard:table growth", "cannot locate `new_max_users = max_users + N` / the fill loop in new_interactive()")
         out.append("/-- C (new_interactive): `int new_max_users = max_users + %s;` -/\ndef growBy : Nat := %s" % (m6[0], m6[0]))
+        # (g) the slot search of new_interactive starts behind the console slot; a new interactive holds no flag
+        m7 = re.findall(r"for \(i = (\d+); i < max_users; i\+\+\)\s*if \(!all_users\[i\]\)\s*break;", comm)
+        if len(m7) != 1 or not re.search(r"master_ob->interactive->iflags = 0;", comm):
+            raise X.TieBroken("guard:slot search", "cannot locate `for (i = N; i < max_users; i++) if (!all_users[i]) break;` / "
+                              "`iflags = 0` in new_interactive()")
+        out.append("/-- C (new_interactive): first slot tried for a network user: `for (i = %s; i < max_users; i++)` -/\n"
+                   "def firstUserSlot : Nat := %s" % (m7[0], m7[0]))
+        # (h) structural guards (no generated definition): where CMD_IN_BUF is set and cleared, what ends single-char mode
+        if len(re.findall(r"~CMD_IN_BUF", body)) != 2 \
+                or len(re.findall(r"\}\s*else\s*ip->iflags &= ~CMD_IN_BUF;", body)) != 1 \
+                or len(re.findall(r"next_cmd_in_buf \(ip\);\s*if \(!cmd_in_buf \(ip\)\)\s*ip->iflags &= ~CMD_IN_BUF;", body)) != 1:
+            raise X.TieBroken("guard:CMD_IN_BUF cleared", "get_user_command no longer clears CMD_IN_BUF exactly (a) when "
+                              "first_cmd_in_buf finds nothing and (b) when nothing complete is left after next_cmd_in_buf")
+        nset = len(re.findall(r"iflags \|= CMD_IN_BUF;", comm))
+        nguard = len(re.findall(r"if \([^;{}]*cmd_in_buf\s*\([^()]*\)\)\s*\{?[^{};]*(?:;[^{};]*)?iflags \|= CMD_IN_BUF;", comm))
+        if nset != nguard or nset < 3:
+            raise X.TieBroken("guard:CMD_IN_BUF set", "CMD_IN_BUF is set somewhere without the cmd_in_buf() test (%d sets, %d guarded)"
+                              % (nset, nguard))
+        if not re.search(r"free_sentence \(sent\);\s*i->input_to = 0;.*?if \(i->iflags & SINGLE_CHAR\)\s*\{\s*i->iflags &= ~SINGLE_CHAR;\s*"
+                         r"set_telnet_single_char \(i, 0\);\s*reframe_single_char_input \(i\);\s*\}.*?call_function_pointer \(funp",
+                         comm, re.S):
+            raise X.TieBroken("guard:call_function_interactive", "call_function_interactive no longer clears input_to, ends "
+                              "single-char mode and reframes the buffer BEFORE it calls the callback")
+        if not re.search(r"if \(flags & I_SINGLE_CHAR\)\s*\{\s*set_telnet_single_char \(ob->interactive, 1\);[^{}]*?"
+                         r"if \(ob->interactive && cmd_in_buf \(ob->interactive\)\)\s*ob->interactive->iflags \|= CMD_IN_BUF;\s*\}",
+                         comm, re.S):
+            raise X.TieBroken("guard:set_call", "set_call no longer flags typed-ahead text when it enters single-char mode")
         # (f) statement order of backend()'s loop, get_user_command() and process_user_command() from the clang AST
         out.append(AX.generate(bdir))
         return "\n".join(out)
